@@ -32,7 +32,9 @@ CLAIMS = {
          "tables obtained by symbolic execution of the package initialisers: the responder writes nothing to the transport before the first AEAD open (the MAC "
          "of act 1) succeeded; traffic keys exist (split ran) and a nil error is returned only if every open of the handshake succeeded and exactly the expected "
          "number happened (3, 3/2, 1, 2); ConnData.remoteKey/authData change only after the keys exist; SetRemote/SetAuthData keep the old value when the callback "
-         "rejects; DecryptAndHash reports an error iff the open failed and then leaves the transcript hash unchanged.",
+         "rejects; DecryptAndHash reports an error iff the open failed and then leaves the transcript hash unchanged; the MAC of act 1 is checked against the "
+         "transcript that absorbed the unmasked remote ephemeral key; the two pattern tables are the Noise patterns (lemmaNoisePatterns); NewBrontideMachine establishes "
+         "the wrappers' precondition; stretchPassphrase feeds the whole passphrase to scrypt.",
          "That a wrong passphrase or a wrong static key makes the MAC fail is a property of SPAKE2 masking, ECDH and ChaCha20-Poly1305 (ekeMask/ekeUnmask are "
          "trusted, point arithmetic is not modelled); what is proved is that nothing is released or installed unless the MACs verified."),
  "C04": ("Transcript mechanics proved per function: mixHash sets h := SHA-256(h || data); mixKey derives (ck, k) := HKDF(ck, input) and keys the cipher with k; "
@@ -53,20 +55,25 @@ CLAIMS = {
          "The blocking half (Send returns without waiting for the first N) is shown only structurally; wake-ups are scheduling. Interference of the "
          "receive goroutine on the window base is sound under the verified guarantee that the base only moves forward inside the window."),
  "C10": ("Safety clause only: the server calls setN only with an n validated to 1..254 that it took from a client SYN, the SYN echo on the wire carries "
-         "the adopted n, the client completes only after a SYN with N equal to its own proposal (point assertion) and non-SYN packets change nothing.",
+         "the adopted n, the client completes only after a SYN with N equal to its own proposal (point assertion) and non-SYN packets change nothing; every "
+         "successful exit of the server handshake has adopted the client's N (assertion at the completion point); in the 'SYN resent' state a SYNACK or DATA packet "
+         "completes it; NewServerConn/NewClientConn (without options) return a connection iff the handshake succeeded.",
          "The convergence clause (a handshake eventually succeeds once the transport behaves) is liveness over timers and is not covered."),
  "C11": ("Sequential clauses of Server.Accept and Client.Dial proved for every state satisfying the listener/dialer invariant: a connection is handed out only after "
          "the previous one's quit channel (closed only by its Close) is closed; the returned connection is the one remembered in mailboxConn, is a new object "
          "with an open quit channel; its two stream ids are derived (GetSID direction bit) from the session id currently in force, which is re-read from ConnData "
          "before every connection (point assertion: the id passed to the constructor is the remembered one); on a changed session id the old connection is "
          "stopped and a new one is created, otherwise RefreshClientConn/RefreshServerConn keep the stream ids; ConnData.HandshakePattern is XX iff no remote "
-         "key is stored and SetRemote stores the key only when the callback accepted it.",
-         "ConnData.SID (hash/ECDH), ClientConn.Close and ServerConn.Stop are trusted contracts; exclusivity as a schedule property (another goroutine using the old "
+         "key is stored and SetRemote stores the key only when the callback accepted it; the session id is read after the wait for the old connection; "
+         "ClientConn.Close/ServerConn.Close close the quit channel on every path (wrappers, connection without GBN part).",
+         "ConnData.SID (hash/ECDH) is a trusted contract, and Accept/Dial use trusted contracts of ClientConn.Close and ServerConn.Stop (whose bodies the wrappers verify for a connection without GBN part); exclusivity as a schedule property (another goroutine using the old "
          "connection while Accept/Dial runs), 'a fresh working connection' (needs the relay and the GBN handshake to succeed) and the admission of a second client are not covered."),
  "C12": ("Typestate clauses only: Close's once-body closes quit, sends FIN unless the peer already did, cancels the context, stops the send queue, "
-         "waits for the loops and stops every ticker created by start (ping, pong, resend); a second Close changes nothing; Send/Recv entered after "
+         "waits for the loops and stops every ticker created by start (ping, pong, resend); the FIN is written under a context created with the configured "
+         "FIN timeout, that context is the one handed to the send function, and cancel() has not been called before it; a second Close changes nothing; Send/Recv entered after "
          "quit is closed return an error without touching the data channels; every blocking select of Send, Recv, both loops, both handshakes and the "
-         "resend syncer has an arm on a close-only quit channel or ctx.Done.",
+         "resend syncer - including the goroutine literals the handshakes start - has an arm on a close-only quit channel or ctx.Done; plain channel sends "
+         "need a free buffer slot, plain receives a quit/timer channel.",
          "'returns within a bounded time' and the wake-up of blocked callers as scheduling facts are not covered; goroutines blocked inside user callbacks are not covered."),
  "C14": ("Send hands the send loop chunks that are consecutive windows of the message of 1..maxChunk bytes, exactly the last one flagged final "
          "(quantified loop invariant over the ghost channel log), one final packet for an empty message or when chunking is off, and nothing once "
@@ -97,7 +104,9 @@ CLAIMS = {
          "next unsent bytes of header then body, in order, once (quantified over the wire log), keeps suffixes of the pending buffers, does not touch the "
          "body while header bytes remain, and reports exactly the plaintext bytes among the body bytes it emitted (MAC bytes subtracted); WriteMessage "
          "returns ErrMessageNotFlushed and changes nothing while a record is pending. Short reads: an obligation is generated for every call of an "
-         "io.Reader's Read whose byte count is not used (the handshake parser and the record reader must go through io.ReadFull).",
+         "io.Reader's Read whose byte count is not used (the handshake parser and the record reader must go through io.ReadFull), and for every read that "
+         "does not go to the transport value the function was handed (a buffering wrapper would swallow bytes); NoiseConn.Write reports on its error path exactly "
+         "the plaintext accepted so far.",
          "The handshake outcome as a function of fragmentation is covered only through the short-read obligation (every field is read with io.ReadFull, "
          "whose model returns either all bytes or an error); partial-write schedules are all writers satisfying the io.Writer contract 0 <= n <= len(p), n < len(p) => err != nil."),
  "C17": ("Mnemonic codec: the two bit-stream loops are verified with loop invariants against an 11-bit-per-word spec for all 14-byte entropies and all "
@@ -111,7 +120,8 @@ CLAIMS = {
          "IntervalAwareForceTicker and GoBackNConn is declared guarded_by a mutex / atomic / immutable / owned_by a goroutine role, and an obligation is "
          "generated and discharged at every access (lock held in the right mode, object not yet shared, or role matches); every Lock respects the "
          "declared rank order and is covered by the function's acquires clause (checked transitively at call sites); Unlock only of held locks; "
-         "close only of open non-nil channels, no send on a channel some close() can close without knowing it is open.",
+         "close only of open non-nil channels, no send on a channel some close() can close without knowing it is open; no wait on a WaitGroup while holding "
+         "a mutex that the goroutines signalling it lock (found by scanning the goroutine literals).",
          "Schedules are not enumerated. Fields without a declaration are not checked (queue.content, config fields); the bodies of anonymous goroutine "
          "functions (ticker clock loop, handshake readers) are not under contract; races inside dependencies and deadlocks other than lock-order inversions are not covered."),
  "C19": ("Every Serialize method and Deserialize of gbn and MsgData.Serialize/Deserialize of mailbox are verified against functional contracts "
